@@ -264,6 +264,24 @@ func genC08(env *core.Env, emit func(core.Case)) {
 			run("echFieldExtremes", false, rec, oneChunk(rec), backendFlight())
 		}
 	}
+	// ... and a payload as long as a record allows: readRecord accepts record bodies up to 2^14 + 256, so
+	// the ECH payload of a hello can exceed 2^14 bytes (garbage here; it is the sizes that matter)
+	for rep := 0; rep < env.Pick(2, 8); rep++ {
+		_, sealed := validTuple()
+		h, _, _ := gen.ParseRecord(sealed.Rec)
+		e, i := gen.FindECH(h)
+		base := len(h.Record(0x0301)) - len(e.Payload)
+		for _, total := range []int{5 + 16384, 5 + 16385, 5 + 16500, 5 + 16640, 5 + 16641} {
+			if total-base < 1 {
+				continue
+			}
+			e.Payload = gen.RandBytes(r, total-base)
+			h.Exts[i] = gen.Ext{Type: 0xfe0d, Data: e.Data()}
+			rec := h.Record(0x0301)
+			run("echPayloadAtRecordLimit", true, rec, oneChunk(rec), backendFlight())
+			run("echPayloadAtRecordLimit", true, rec, randChunks(r, rec), backendFlight())
+		}
+	}
 	// an authentic payload under an outer hello whose server_name is missing, empty, or spelled otherwise
 	for rep := 0; rep < env.Pick(3, 20); rep++ {
 		for variant := 0; variant < 5; variant++ {
